@@ -64,49 +64,50 @@ func checkOneSectionAndCallbackOutside(r *Reporter, p *Prog, pkg string, fd *ast
 	pk := p.Pkg(pkg)
 	info := pk.TypesInfo
 	fkey := funcKey(pkg, fd)
-	// (a)
-	var acquires []*ast.CallExpr
-	inLoop := false
-	var walk func(n ast.Node, loop bool)
-	walk = func(n ast.Node, loop bool) {
-		ast.Inspect(n, func(c ast.Node) bool {
-			if c == nil || c == n {
-				return true
-			}
-			switch x := c.(type) {
-			case *ast.ForStmt:
-				walk(x, true)
-				return false
-			case *ast.RangeStmt:
-				walk(x, true)
-				return false
-			case *ast.FuncLit:
-				walk(x, loop)
-				return false
-			case *ast.CallExpr:
-				if op, _ := lockOp(info, x); op == "Lock" || op == "RLock" {
-					acquires = append(acquires, x)
-					if loop {
-						inLoop = true
-					}
-				}
-			}
-			return true
-		})
+	// Judged on the graph of the operation with its helpers and the literals handed to them spliced in:
+	// it does not matter whether the locked scan is written inline or as a helper taking a visitor.
+	f := newFuncCFG(p, info, fd.Body, fkey)
+	isAcquire := func(n ast.Node) bool {
+		c, ok := n.(*ast.CallExpr)
+		if !ok {
+			return false
+		}
+		op, _ := lockOp(info, c)
+		return op == "Lock" || op == "RLock"
 	}
-	walk(fd.Body, false)
+	isRelease := func(n ast.Node) bool {
+		c, ok := n.(*ast.CallExpr)
+		if !ok {
+			return false
+		}
+		op, _ := lockOp(info, c)
+		return op == "Unlock" || op == "RUnlock"
+	}
+	// (a) one acquisition site, outside every loop
+	acquires := f.Find(isAcquire)
+	inLoop := false
+	for _, ap := range acquires {
+		for _, l := range f.Loops() {
+			if f.InLoopBody(l, ap) {
+				inLoop = true
+			}
+		}
+	}
 	switch {
 	case len(acquires) != 1:
 		r.Fail("snapshot/one-section", fkey, p.posStr(fd.Pos()), fmt.Sprintf("%d lock acquisition sites; the snapshot of %s must be taken in exactly one critical section", len(acquires), field))
 	case inLoop:
-		r.Fail("snapshot/one-section", fkey, p.posStr(acquires[0].Pos()), "lock acquired inside a loop: entries are read in several critical sections")
+		r.Fail("snapshot/one-section", fkey, f.PosOf(acquires[0]), "lock acquired inside a loop: entries are read in several critical sections")
 	default:
-		r.Pass("snapshot/one-section", fkey, p.posStr(acquires[0].Pos()), "single acquisition site outside any loop; all reads of "+field+" are lock-checked by lock/guarded-by")
+		r.Pass("snapshot/one-section", fkey, f.PosOf(acquires[0]), "single acquisition site outside any loop; all reads of "+field+" are lock-checked by lock/guarded-by")
 	}
-	// (b)
+	// (b) the consumer (a function-typed parameter of the operation) is never called between the
+	// acquisition and the release. Release points: an explicit Unlock/RUnlock, or - for a release that
+	// is deferred inside a spliced helper - the helper's return sites. A deferred release in the
+	// operation itself never comes before a call, so every consumer call after the acquisition is bad.
 	params := map[types.Object]bool{}
-	for _, f := range fd.Type.Params.List {
-		for _, n := range f.Names {
+	for _, fl := range fd.Type.Params.List {
+		for _, n := range fl.Names {
 			if obj := info.Defs[n]; obj != nil {
 				if _, ok := obj.Type().Underlying().(*types.Signature); ok {
 					params[obj] = true
@@ -114,30 +115,67 @@ func checkOneSectionAndCallbackOutside(r *Reporter, p *Prog, pkg string, fd *ast
 			}
 		}
 	}
-	nCalls := 0
+	consumerCalls := map[ast.Node]bool{}
+	for _, b := range f.G.Blocks {
+		if !b.Live {
+			continue
+		}
+		for i, nd := range b.Nodes {
+			pt := Point{b, i}
+			inspectNoLit(nd, func(m ast.Node) bool {
+				if c, ok := m.(*ast.CallExpr); ok {
+					for po := range params {
+						if f.IsVar(c.Fun, pt, po) {
+							consumerCalls[c] = true
+						}
+					}
+				}
+				return true
+			})
+		}
+	}
+	// return sites of helpers that registered a deferred release
+	releaseAtRet := map[Point]bool{}
+	for _, b := range f.G.Blocks {
+		if !b.Live {
+			continue
+		}
+		for _, nd := range b.Nodes {
+			if ds, ok := nd.(*ast.DeferStmt); ok && isRelease(ds.Call) {
+				if reg := f.regionOf[b]; reg != nil {
+					for _, rt := range reg.rets {
+						releaseAtRet[rt.pt] = true
+					}
+				}
+			}
+		}
+	}
 	var bad []string
-	seen := map[ast.Node]bool{}
-	AnalyzeLocks(fd.Body, LockSet{}, &FlowOpts{Info: info}, func(n ast.Node, stack []ast.Node, held LockSet) {
-		c, ok := n.(*ast.CallExpr)
-		if !ok || seen[c] {
-			return
+	for _, ap := range acquires {
+		if w, found := f.reach(Point{ap.B, ap.I + 1}, &searchOpts{AvoidNode: func(n ast.Node) bool {
+			if _, isDefer := n.(*ast.DeferStmt); isDefer {
+				return false
+			}
+			if es, ok := n.(*ast.ExprStmt); ok && isRelease(es.X) {
+				return true
+			}
+			if pt, ok := f.PointOf(n); ok && releaseAtRet[pt] {
+				return true
+			}
+			return false
+		}}, func(pt Point, atExit bool) bool {
+			return !atExit && containsMatch(f.nodeAt(pt), func(m ast.Node) bool { return consumerCalls[m] })
+		}); found {
+			bad = append(bad, "the consumer can be invoked while the mutex taken at "+f.PosOf(ap)+" is still held")
+			bad = append(bad, w...)
 		}
-		id, ok := ast.Unparen(c.Fun).(*ast.Ident)
-		if !ok || !params[info.Uses[id]] {
-			return
-		}
-		seen[c] = true
-		nCalls++
-		if len(held) > 0 {
-			bad = append(bad, fmt.Sprintf("%s: callback %s invoked while holding %s", p.posStr(c.Pos()), id.Name, held))
-		}
-	})
-	if nCalls == 0 {
+	}
+	if len(consumerCalls) == 0 {
 		r.Fail("lock/no-callback-under-lock", fkey, p.posStr(fd.Pos()), "no call of the consumer parameter found (row vacuous)")
 	} else if len(bad) > 0 {
 		r.Fail("lock/no-callback-under-lock", fkey, p.posStr(fd.Pos()), bad[0], bad...)
 	} else {
-		r.Pass("lock/no-callback-under-lock", fkey, p.posStr(fd.Pos()), fmt.Sprintf("%d consumer call(s), all with no mutex held", nCalls))
+		r.Pass("lock/no-callback-under-lock", fkey, p.posStr(fd.Pos()), fmt.Sprintf("%d consumer call(s), none between the acquisition and the release of the mutex", len(consumerCalls)))
 	}
 }
 
